@@ -106,7 +106,7 @@ pub fn run(ctx: &Ctx) -> Report {
         rep.inconclusive.push(format!("model self-test failed: {}", e));
         return rep;
     }
-    let tables = DayTables::new();
+    let tables = if ctx.scale < 1.0 { DayTables::with_stride(97) } else { DayTables::new() };
     let tz_days: Vec<RuleDay> = tables.days.iter().map(|d| d.to_tz().unwrap()).collect();
     let pre = Pre { tz_days, tables };
     let n = pre.tables.days.len();
@@ -125,7 +125,7 @@ pub fn run(ctx: &Ctx) -> Report {
     run_enum(ctx, &mut rep, 1, n as u64, |l, _rng, si| {
         let si = si as usize;
         let mut cnt = 0u64;
-        let step = if ctx.scale < 1.0 { 97 } else { 1 };
+        let step = 1;
         let mut ei = 0;
         while ei < n {
             let diffs = pre.tables.diffs(si, ei);
